@@ -1075,9 +1075,9 @@ def get_charnos(node: ast.AST, source: str, keep_first_indent: bool = False) -> 
         whitespace = max(re.findall(r" *\Z$", code), key=len)
         end_charno -= len(whitespace)
     if start is not node:
-        # The "@" is in front of the first decorator, maybe with blanks, an opening bracket or a
-        # line continuation in between: "@ foo", "@(foo)"
-        at_sign = re.search(r"@[\s\\(]*\Z", source[:start_charno])
+        # The "@" is in front of the first decorator, maybe with blanks, an opening bracket, a
+        # line continuation or a comment in between: "@ foo", "@(foo)", "@(  # cached"
+        at_sign = re.search(r"@(?:[\s\\(]|#[^\n]*)*\Z", source[:start_charno])
         if at_sign:
             start_charno = at_sign.start()
     if keep_first_indent:
